@@ -9,6 +9,7 @@
 * collects cases, compares implementation / model / specification and writes evidence.
 """
 import copy
+import enum
 import fcntl
 import hashlib
 import threading
@@ -376,7 +377,23 @@ def _opt_record(fn, args, stream, r):
     _OPT_COUNT[bucket] = k + 1
     cap = 80 if r.ok else 30
     slot = None
-    if k >= 10:
+    # ... and the first call of every distinct *shape* of arguments (lengths up to 40, small integers by value, None, version and
+    # number of blocks of a header) is always kept, up to 300 shapes per function and outcome: a boundary class that a generator
+    # visits a few times in thousands of calls (a window of 17 digits, a block size of 1) is then repeated in every child
+    # whatever the seed
+    shapes = _OPT_SHAPES.setdefault(bucket, set())
+    shape = _arg_shape(args)
+    fresh_shape = shape not in shapes and len(shapes) < 300
+    if fresh_shape:
+        shapes.add(shape)
+    # ... and so is the first call in which any single argument takes a shape not yet seen in that position (the joint shapes of a
+    # function with seven parameters run into the thousands; the values of one parameter do not)
+    for pos, sh_ in enumerate(shape):
+        seen_here = _OPT_SHAPES.setdefault((bucket, pos), set())
+        if sh_ not in seen_here:
+            seen_here.add(sh_)
+            fresh_shape = True
+    if k >= 10 and not fresh_shape:
         slots = _OPT_SLOTS.setdefault(bucket, [])
         if len(slots) >= cap:
             j = _OPT_RNG.randrange(k - 10 + 1)
@@ -394,9 +411,35 @@ def _opt_record(fn, args, stream, r):
     if slot is not None:
         OPT_POOL[slot] = item
     else:
-        if k >= 10:
+        if k >= 10 and not fresh_shape:
             _OPT_SLOTS[bucket].append(len(OPT_POOL))
         OPT_POOL.append(item)
+
+
+_OPT_SHAPES = {}
+
+
+def _arg_shape(args):
+    out = []
+    for a in args:
+        if isinstance(a, (bytes, bytearray)):
+            out.append(("b", min(len(a), 40)))
+        elif isinstance(a, str):
+            out.append(("s", min(len(a), 40)))
+        elif isinstance(a, bool) or a is None:
+            out.append(a)
+        elif isinstance(a, int):
+            out.append(("i", a if -2 <= a <= 40 else "big"))
+        elif isinstance(a, enum.Enum):
+            out.append(a.name)
+        elif type(a).__name__ == "Header":
+            try:
+                out.append(("H", str(a.version_id), len(a.blocks)))
+            except Exception:  # noqa: BLE001
+                out.append("H")
+        else:
+            out.append(type(a).__name__)
+    return tuple(out)
 
 
 _CALLNO = [0]
@@ -934,7 +977,7 @@ CHILD_CONFIGS = [
 ]
 
 
-def optimised_recheck(limit=4000):
+def optimised_recheck(limit=6000):
     """The calls kept by `_opt_record` (per public function and outcome class, with the operating-system entropy each one drew) are
     repeated in child interpreters started in other modes (`CHILD_CONFIGS`): with asserts stripped; with bytes / str comparisons and
     warnings escalated to errors; in development / UTF-8 mode under another hash seed, locale, time zone and import order.
@@ -942,7 +985,7 @@ def optimised_recheck(limit=4000):
     them. Returns a Case carrying the failures, or None when there was nothing to repeat."""
     import pickle
     import tempfile
-    pool = OPT_POOL[:limit]
+    pool = OPT_POOL if len(OPT_POOL) <= limit else [OPT_POOL[i] for i in sorted(_OPT_RNG.sample(range(len(OPT_POOL)), limit))]
     if not pool:
         return None
     c = Case("repeated-in-other-interpreter-modes", {"calls": len(pool), "functions": len({x[0] for x in pool}), "modes": [x[0] for x in CHILD_CONFIGS]})
@@ -1017,6 +1060,7 @@ def optimised_recheck(limit=4000):
     del OPT_POOL[:]
     _OPT_SLOTS.clear()
     _OPT_COUNT.clear()
+    _OPT_SHAPES.clear()
     return c
 
 
